@@ -486,6 +486,13 @@ def plan(ctx):
                         c.append({"kind": "cadence", "base": ctx.seed, "all_checkpoints": th, "cfg": dict(clustering=True, cluster_every=ce, ess_ratio=ratio, sample=kern, normalize=norm,
                                                                                  n_max_clusters=cap, target="unequal" if (ce + int(ratio)) % 2 else "bimodal",
                                                                                  n_particles=32 if (ce + int(ratio)) % 2 else 24, n_total=96)})
+    # dynamic (volume-variation) schedules: the temperature often stalls for several iterations (exactly equal consecutive betas below 1)
+    for ce in (1, 2, 3):
+        for kern in ("tpcn", "rwm"):
+            for vv in (0.5, 0.05):
+                for tgt in (("bimodal", "unequal") if th else (("bimodal",) if (ce + (vv < 0.1)) % 2 else ("unequal",))):
+                    c.append({"kind": "cadence", "base": ctx.seed, "all_checkpoints": False, "cfg": dict(clustering=True, cluster_every=ce, ess_ratio=2.0, vv=vv, sample=kern, normalize=True,
+                                                                                                         n_max_clusters=None, target=tgt, n_particles=24, n_total=96)})
     for npart in (1, 2):  # one / two active particles: every prediction the pipeline makes is a one- or two-row query; several tapes, longer runs (they are cheap)
         for kern in ("tpcn", "rwm"):
             for tgt in ("bimodal", "unequal"):
